@@ -494,6 +494,17 @@ class CallMixin:
         old = st
         self.used_contracts.add(c.qual)
         cc = Ctx(c.mod, c.cls)
+        # class invariant of the receiver, for a client outside the class: it speaks about name-mangled private attributes
+        # only (lint `class-invariant-attributes-are-private`), every method of the class re-establishes it on every exit
+        # (obligations cinv / cinv@raise), so it holds for every object of the class whenever control is outside the class
+        visible_inv = []
+        if c.cls in self.reg.class_invs and cx.cls != c.cls and selfsv is not None and selfsv.e is not None and c.cinv is not False:
+            visible_inv = list(self.reg.class_invs[c.cls].values())
+            if c.name != "__init__":
+                spi = Spec(st, names, mode="assume")
+                for iv in visible_inv:
+                    st.assume(self.spec_truth(st, iv, cc.with_spec(spi)))
+        old = st
         sp0 = Spec(old, names)
         if cx.spec is None:
             for p, ty in c.params.items():
@@ -520,6 +531,8 @@ class CallMixin:
         sp = Spec(old, nm, oldnames=names, mode="assume")
         for lbl, en in list(c.ensures.items()) + list(c.defines_ensures.items()):
             s1.assume(self.spec_truth(s1, en, cc.with_spec(sp)))
+        for iv in visible_inv:
+            s1.assume(self.spec_truth(s1, iv, cc.with_spec(Spec(s1, names, mode="assume"))))
         if o.feasible(s1):
             yield s1, res
         # ---- exceptional outcome
@@ -534,6 +547,8 @@ class CallMixin:
             sp2 = Spec(old, names, exc=r, mode="assume")
             for lbl, rs in list(c.raises.items()) + list(c.defines_raises.items()):
                 s2.assume(self.spec_truth(s2, rs, cc.with_spec(sp2)))
+            for iv in visible_inv:
+                s2.assume(self.spec_truth(s2, iv, cc.with_spec(Spec(s2, names, mode="assume"))))
             if o.feasible(s2):
                 yield s2, r
 
